@@ -68,19 +68,22 @@ _ANON = re.compile(r"(EmbossReservedAnonymousField|emboss_reserved_anonymous_fie
 
 
 def anon_ranks(ir):
-    """{file: {number: rank}} for the anonymous-bits counter values met in each module"""
+    """{file: {number: rank}}: anonymous-bits counter values met in each module, ranked by the
+    source line of the `bits` keyword (the counter itself follows the order in which module_ir
+    builds the IR, which is not textual order)"""
     ranks = {}
     for m in ir.module:
-        nums = set()
+        found = []
 
         def scan(t):
-            for mm in _ANON.finditer(t.name.name.text):
-                nums.add(int(mm.group(2)))
+            mm = _ANON.fullmatch(t.name.name.text)
+            if mm:
+                found.append((scope_x.line_of(t.name.name.source_location), int(mm.group(2))))
             for s in t.subtype or []:
                 scan(s)
         for t in m.type:
             scan(t)
-        ranks[m.source_file_name] = {n: i for i, n in enumerate(sorted(nums))}
+        ranks[m.source_file_name] = {n: i for i, (_, n) in enumerate(sorted(found))}
     return ranks
 
 
@@ -335,6 +338,7 @@ def run(ctx):
     coq_cases = [(c.term, c.expected, c) for c in ready]
     runner = fw.CoqCases(ctx, "scope", HEADER, "run_case", "case_eqb", "input", "(outcome1 * option outcome2)", shard=8)
     bad = runner.run(coq_cases)
+    ctx.extra["coq_cases_s"] = round(time.time() - t0 - ctx.extra["prepare_s"], 1)
     for c in ready:
         nref = len(c.tr.refsA) + len(c.tr.frs)
         ctx.case((c.label, sorted(c.files.items()), c.main), nontrivial=nref > 0,
